@@ -129,6 +129,44 @@ theorem merge_frame (h : Heap) (p o : Ref) (P O : ReqObj)
         have : d ≠ e := fun x => hne (by rw [hr, x])
         exact getD_set_other _ _ _ _ this
 
+/-- Two request objects share no (non-nil) map object. -/
+def mapDisjoint (P Q : ReqObj) : Prop :=
+  (∀ d, P.configs = some d → Q.configs ≠ some d) ∧ (∀ d, P.addrs = some d → Q.addrs ≠ some d) ∧
+  (∀ d, P.wps = some d → Q.wps ≠ some d) ∧ (∀ d, P.reason = some d → Q.reason ≠ some d)
+
+/-- Consequence of the frame: a request `q` other than the receiver that shares no map with the
+    receiver reads exactly the same after `p.Merge(o)` - e.g. a request already handed to `pushFn`
+    while debounce keeps merging into the next batch (requests of different `ConfigUpdate` calls are
+    built from fresh maps). -/
+theorem merge_other_unchanged (h : Heap) (p o q : Ref) (P O Q : ReqObj)
+    (hp : h.reqs[p]? = some P) (ho : h.reqs[o]? = some O) (hq : h.reqs[q]? = some Q) (hne : q ≠ p)
+    (hwf : Q.wf h = true) (hdis : mapDisjoint P Q) :
+    viewAt (merge h (some p) (some o)).1 (some q) = viewAt h (some q) := by
+  obtain ⟨f1, f2, f3, f4, f5⟩ := merge_frame h p o P O hp ho
+  simp only [ReqObj.wf, Bool.and_eq_true] at hwf
+  obtain ⟨⟨⟨w1, w2⟩, w3⟩, w4⟩ := hwf
+  obtain ⟨d1, d2, d3, d4⟩ := hdis
+  simp only [viewAt, f1 q hne, hq, Option.map_some]
+  have key : ∀ (st st' : List (List String)) (pr qr : Option Ref),
+      (∀ d, pr ≠ some d → st'.getD d [] = st.getD d []) → (∀ d, pr = some d → qr ≠ some d) →
+      rdO st' qr = rdO st qr := by
+    intro st st' pr qr hfr hd
+    cases qr with
+    | none => rfl
+    | some e =>
+      have : pr ≠ some e := fun hh => hd e hh rfl
+      simp only [rdO, Option.map_some]
+      rw [hfr e this]
+  have kr : rdO (merge h (some p) (some o)).1.rsns Q.reason = rdO h.rsns Q.reason := by
+    cases hr : Q.reason with
+    | none => rfl
+    | some e =>
+      have hne' : P.reason ≠ some e := fun hh => d4 e hh hr
+      have he : e < h.rsns.length := by simpa [okRef, hr] using w4
+      simp only [rdO, Option.map_some]
+      rw [f5 e hne' he]
+  simp only [view, key _ _ _ _ f2 d1, key _ _ _ _ f3 d2, key _ _ _ _ f4 d3, kr]
+
 /-- `Merge` keeps every reference valid. -/
 theorem okRef_mono {n m : Nat} (hnm : n ≤ m) {o : Option Ref} (h : okRef n o = true) : okRef m o = true := by
   cases o with
@@ -191,6 +229,89 @@ theorem merge_wf (h : Heap) (a b : Option Ref) (hwf : h.wf = true) : (merge h a 
                 have := hP.2
                 simp only [hr, okRef, decide_eq_true_eq] at this
                 simp [okRef, mergeInto, this]
+
+/-- `req = req.Merge(o1); req = req.Merge(o2); ...` with the same receiver object `p` (what debounce
+    does within one batch, whose receiver is the batch's first request). -/
+def mergeMany (h : Heap) (p : Ref) : List Ref → Heap
+  | [] => h
+  | o :: os => mergeMany (merge h (some p) (some o)).1 p os
+
+theorem mergeObj_disjoint (h : Heap) (P O Q : ReqObj) (hwf : Q.wf h = true)
+    (hP : mapDisjoint P Q) (hO : mapDisjoint O Q) : mapDisjoint (mergeObj h P O) Q := by
+  obtain ⟨p1, p2, p3, p4⟩ := hP
+  obtain ⟨o1, o2, o3, o4⟩ := hO
+  simp only [ReqObj.wf, Bool.and_eq_true] at hwf
+  have fr : ∀ (a b : Option Ref) (qr : Option Ref), (∀ d, a = some d → qr ≠ some d) → (∀ d, b = some d → qr ≠ some d) →
+      ∀ d, fieldRef a b = some d → qr ≠ some d := by
+    intro a b qr ha hb d hd
+    cases a with
+    | none => exact hb d hd
+    | some e => exact ha d hd
+  refine ⟨fr _ _ _ p1 o1, fr _ _ _ p2 o2, fr _ _ _ p3 o3, ?_⟩
+  intro d hd
+  simp only [mergeObj, reasonRef] at hd
+  split at hd
+  · exact p4 d hd
+  · cases hr : P.reason with
+    | some r => rw [hr] at hd; exact p4 d (by rw [hr]; exact hd)
+    | none =>
+      rw [hr] at hd
+      simp only [Option.some.injEq] at hd
+      intro hq
+      have := hwf.2
+      rw [hq] at this
+      simp only [okRef, decide_eq_true_eq] at this
+      subst hd
+      exact absurd this (Nat.lt_irrefl _)
+
+/-- **Hand-off safety**: a request `q` (e.g. one already handed to `pushFn`) that shares no map with
+    the receiver `p` of a later batch nor with any request merged into it reads the same after the
+    whole batch has been merged - `Merge`'s in-place writes and aliasing stay inside the batch. -/
+theorem handoff_safe (h : Heap) (p q : Ref) (os : List Ref) (Q : ReqObj)
+    (hq : h.reqs[q]? = some Q) (hne : q ≠ p) (hwf : Q.wf h = true)
+    (hp : ∀ P, h.reqs[p]? = some P → mapDisjoint P Q)
+    (hos : ∀ o ∈ os, ∀ O, h.reqs[o]? = some O → mapDisjoint O Q) :
+    viewAt (mergeMany h p os) (some q) = viewAt h (some q) := by
+  induction os generalizing h with
+  | nil => rfl
+  | cons o os ih =>
+    simp only [mergeMany]
+    cases hP : h.reqs[p]? with
+    | none =>
+      have : merge h (some p) (some o) = (h, some p) := by simp [merge, hP]
+      rw [this]
+      exact ih h hq hwf hp (fun o' ho' => hos o' (List.mem_cons_of_mem _ ho'))
+    | some P =>
+      cases hO : h.reqs[o]? with
+      | none =>
+        have : merge h (some p) (some o) = (h, some p) := by simp [merge, hP, hO]
+        rw [this]
+        exact ih h hq hwf hp (fun o' ho' => hos o' (List.mem_cons_of_mem _ ho'))
+      | some O =>
+        have hPd := hp P hP
+        have hOd := hos o (List.mem_cons_self) O hO
+        have hstep := merge_other_unchanged h p o q P O Q hP hO hq hne hwf hPd
+        have hfr := merge_frame h p o P O hP hO
+        have heq := merge_eq h p o P O hP hO
+        have hq1 : (merge h (some p) (some o)).1.reqs[q]? = some Q := by rw [hfr.1 q hne]; exact hq
+        have hwf1 : Q.wf (merge h (some p) (some o)).1 = true := by
+          rw [heq]
+          simp only [ReqObj.wf, Bool.and_eq_true, mergeHeap, fieldStore_length] at hwf ⊢
+          exact ⟨⟨⟨hwf.1.1.1, hwf.1.1.2⟩, hwf.1.2⟩, okRef_mono (reasonStore_length_le h P O) hwf.2⟩
+        have hp1 : ∀ P', (merge h (some p) (some o)).1.reqs[p]? = some P' → mapDisjoint P' Q := by
+          intro P' hP'
+          have hlt : p < h.reqs.length := (List.getElem?_eq_some_iff.mp hP).1
+          rw [heq] at hP'
+          simp only [mergeHeap, List.getElem?_set, hlt, if_true, Option.some.injEq] at hP'
+          rw [← hP']
+          exact mergeObj_disjoint h P O Q hwf hPd hOd
+        have hos1 : ∀ o' ∈ os, ∀ O', (merge h (some p) (some o)).1.reqs[o']? = some O' → mapDisjoint O' Q := by
+          intro o' ho' O' hO'
+          by_cases hop : o' = p
+          · subst hop; exact hp1 O' hO'
+          · rw [hfr.1 o' hop] at hO'
+            exact hos o' (List.mem_cons_of_mem _ ho') O' hO'
+        rw [ih _ hq1 hwf1 hp1 hos1, hstep]
 
 /-! ## `CopyMerge` on the heap -/
 
@@ -485,7 +606,7 @@ theorem vCopyMerge_push (a b : View) : (vCopyMerge a b).push = b.push := rfl
 
 /-- ... which is the newest one whenever the argument carries a snapshot (every request entering the
     push queue does: `Push`, `AdsPushAll` and `ProxyUpdate` set it before `Enqueue`). -/
-theorem vCopyMerge_push_newest (a b : View) (hb : b.push.isSome = true) :
+theorem copyMerge_push_newest_partial (a b : View) (hb : b.push.isSome = true) :
     (vCopyMerge a b).push = (vMerge a b).push := by
   cases h : b.push <;> simp_all [vCopyMerge, vMerge, newestPush]
 
